@@ -186,3 +186,8 @@ def spec_request_uri(u):
 def absolute_form_required(mgr, u):
     """forwarding (no CONNECT tunnel) through a proxy needs the absolute URL in the request line"""
     return mgr.proxy is not None and not tunnel_required(mgr.proxy, mgr.proxy_config, u.scheme)
+
+
+def wire_form(chunk):
+    """what is written for one body chunk: str chunks as UTF-8, everything else as it is"""
+    return chunk.encode("utf-8") if isinstance(chunk, str) else chunk
